@@ -691,6 +691,12 @@ class Model:
         for n in _walk_same_scope(new):
             if isinstance(n, ast.Name) and isinstance(n.ctx, (ast.Store, ast.Del)):
                 stores[n.id] = stores.get(n.id, 0) + 1
+            elif isinstance(n, (ast.Import, ast.ImportFrom)):     # imports bind names too
+                for al in n.names:
+                    nm_ = (al.asname or al.name).split(".")[0]
+                    stores[nm_] = stores.get(nm_, 0) + 1
+            elif isinstance(n, ast.ExceptHandler) and n.name:
+                stores[n.name] = stores.get(n.name, 0) + 1
         params = {a.arg for a in new.args.args + new.args.kwonlyargs + new.args.posonlyargs}
         # a container that is filled after it was bound is not its initial value
         mutated = set()
